@@ -138,6 +138,26 @@ fn check(case: &Case, obs: &mut Obs) -> Verdict {
             if let Err(m) = judge_groups(&ops, *n, &groups) {
                 return Verdict::Fail(m);
             }
+            // the same list recorded by a plain Capture (no Replace adapter in front: adjacent Delete /
+            // Insert ops stay two ops) and grouped through Capture::into_grouped_ops
+            match guard(|| {
+                let mut cap = Capture::new();
+                for op in &ops {
+                    op.apply_to_hook(&mut cap).unwrap();
+                }
+                similar::algorithms::DiffHook::finish(&mut cap).unwrap();
+                (cap.ops().to_vec(), cap.into_grouped_ops(*n))
+            }) {
+                Ok((recorded, g)) => {
+                    if recorded != ops {
+                        return Verdict::Fail(format!("a plain Capture records {:?} for the replayed list {:?}", recorded, ops));
+                    }
+                    if g != groups {
+                        return Verdict::Fail(format!("Capture::into_grouped_ops({}) over the list as a plain Capture recorded it gives {:?}, group_diff_ops gives {:?} (input {:?})", n, g, groups, ops));
+                    }
+                }
+                Err(p) => return Verdict::Fail(format!("Capture::into_grouped_ops over a replayed list: {}", p)),
+            }
             let changes = ops.iter().filter(|o| !is_eq(o)).count();
             let special = ops.iter().any(|o| matches!(o, DiffOp::Equal { len, .. } if *len == *n || *len == n.saturating_mul(2) || *len == n.saturating_mul(2).saturating_add(1)));
             obs.nontrivial = changes >= 2 && special;
@@ -440,7 +460,7 @@ impl Prop for C12 {
     type Case = Case;
     const ID: &'static str = "C12";
     fn rule() -> String {
-        "cases = Ops(valid op list - alternating, or with a Delete directly followed by an Insert or the reverse as a Capture without the Replace adapter records them - with arbitrary run lengths biased to {n, 2n, 2n+1, 2n+2, n+1, 1}, optional leading/trailing Equal, non-zero start offsets; n in 0..6 | 10 | 1000) | Real(sequence diff through Capture::into_grouped_ops and group_diff_ops; also diffs with 64-300 ops)  | Text(TextDiff::grouped_ops as a call history on one diff object: grouped_ops(other radius), a unified diff with a third radius, grouped_ops(n) twice, each answer judged on its own; the same texts also as caller-split lines with a trailing empty item through diff_slices); enumeration of all lists with few changes (Delete, Insert or Delete+Insert as two ops), Equal lengths 1..=5, n in 0..=2. Oracle: flattened non-Equal ops == input non-Equal ops; no all-Equal group; edge context <= n and interior runs <= 2n; equality with a reference grouping written from the statement (modulo zero-length Equal ops, which the pinned code emits for n=0 and the statement neither requires nor forbids). Non-trivial = >= 2 changes and (synthetic) an Equal run of length n, 2n or 2n+1; distinct = distinct serialized case.".into()
+        "cases = Ops(valid op list - alternating, or with a Delete directly followed by an Insert or the reverse as a Capture without the Replace adapter records them - with arbitrary run lengths biased to {n, 2n, 2n+1, 2n+2, n+1, 1}, optional leading/trailing Equal, non-zero start offsets; n in 0..6 | 10 | 1000) | Real(sequence diff through Capture::into_grouped_ops and group_diff_ops; also diffs with 64-300 ops)  | Text(TextDiff::grouped_ops as a call history on one diff object: grouped_ops(other radius), a unified diff with a third radius, grouped_ops(n) twice, each answer judged on its own; the same texts also as caller-split lines with a trailing empty item through diff_slices); enumeration of all lists with few changes (Delete, Insert or Delete+Insert as two ops), Equal lengths 1..=5, n in 0..=2. Synthetic lists are also replayed into a plain Capture (no Replace adapter) and grouped through Capture::into_grouped_ops == group_diff_ops. Oracle: flattened non-Equal ops == input non-Equal ops; no all-Equal group; edge context <= n and interior runs <= 2n; equality with a reference grouping written from the statement (modulo zero-length Equal ops, which the pinned code emits for n=0 and the statement neither requires nor forbids). Non-trivial = >= 2 changes and (synthetic) an Equal run of length n, 2n or 2n+1; distinct = distinct serialized case.".into()
     }
     fn assumptions() -> Vec<String> {
         vec!["input lists never hold two adjacent Equal ops (equal runs are whole, as every capture path of the crate produces them); adjacent non-Equal ops are in the domain; zero-length Equal ops in the output are tolerated".into()]
